@@ -1,0 +1,30 @@
+//go:build verif
+
+package cosign
+
+// Exports for the verification harness (/verif): the unexported helpers of this package, unchanged.
+
+import (
+	"crypto"
+
+	"github.com/opencontainers/go-digest"
+
+	"github.com/sassoftware/relic/v8/signers"
+)
+
+// VerifDigestManifest is digestManifest: (digest string, media type).
+func VerifDigestManifest(hash crypto.Hash, blob []byte) (string, string, error) {
+	d, mt, err := digestManifest(hash, blob)
+	return string(d), mt, err
+}
+
+// VerifNewPayload is newPayload.
+func VerifNewPayload(manifestDigest string, opts signers.SignOpts) ([]byte, error) {
+	return newPayload(digest.Digest(manifestDigest), opts)
+}
+
+// VerifDigestPayload is digestPayload: (raw digest, digest string).
+func VerifDigestPayload(hash crypto.Hash, blob []byte) ([]byte, string) {
+	raw, d := digestPayload(hash, blob)
+	return raw, string(d)
+}
